@@ -59,11 +59,13 @@ type c01net struct {
 }
 
 type c01env struct {
-	nets []*c01net
-	peer *enode.Node
-	addr *net.UDPAddr
-	dir  string
-	node *portal.Node
+	oracle     *c01oracle
+	defaultHdr *types.Header
+	nets       []*c01net
+	peer       *enode.Node
+	addr       *net.UDPAddr
+	dir        string
+	node       *portal.Node
 }
 
 func c01setup(c *Ctx) *c01env {
@@ -91,6 +93,8 @@ func c01setup(c *Ctx) *c01env {
 	// a header the lying-or-honest oracle hands to validators that ask for one
 	hdr := &types.Header{Number: big.NewInt(1), Difficulty: big.NewInt(1)}
 	or := &c01oracle{hdr: hdr}
+	env.oracle = or
+	env.defaultHdr = hdr
 	for _, x := range []struct {
 		name string
 		p    *portalwire.PortalProtocol
@@ -327,6 +331,44 @@ func runC01(c *Ctx) {
 			env.exec(c, "put", nt, append([]byte{0x14}, r.Bytes(l)...), r.Bytes(20))
 		}
 	}
+	// (a'') genuine test vectors of the repository, unchanged and under structured mutation, through the
+	// validators (with the vector's own header served by the oracle when the file carries one) and the storage adapters
+	vectors := c01loadVectors()
+	c.Stats["vectors_loaded"] = len(vectors)
+	nv := 300
+	if c.Tier == "thorough" {
+		nv = 6000
+	}
+	for i := 0; i < nv && len(vectors) > 0; i++ {
+		v := vectors[r.Intn(len(vectors))]
+		var nt *c01net
+		switch {
+		case v.key[0] < 0x10:
+			nt = env.nets[0]
+		case v.key[0] < 0x20:
+			nt = env.nets[1]
+		default:
+			nt = env.nets[2]
+		}
+		if v.header != nil {
+			env.oracle.hdr = v.header
+		}
+		key := v.key
+		if r.Intn(6) == 0 {
+			key = c01mutateContent(r, key)
+		}
+		content := c01mutateContent(r, v.val)
+		if len(content) > 30000 && r.Intn(4) != 0 {
+			continue // keep the case file small; large vectors only occasionally
+		}
+		switch r.Intn(4) {
+		case 0:
+			env.exec(c, "put", nt, key, content)
+		default:
+			env.exec(c, "validate", nt, key, content)
+		}
+	}
+	env.oracle.hdr = env.defaultHdr
 	// (b) encoder output, plain and mutated
 	valid := c01validMessages(r)
 	for _, nt := range env.nets {
